@@ -98,6 +98,16 @@ func wrapFeature(rc *RC, f xmpp.StreamFeature, log *[]featStep) xmpp.StreamFeatu
 			return req, data, err
 		}
 	}
+	if list := f.List; list != nil {
+		// ... and so is writing the advertisement on the receiving side
+		f.List = func(ctx context.Context, e xmlstream.TokenWriter, start xml.StartElement) (bool, error) {
+			req, err := list(ctx, e, start)
+			if err != nil {
+				*log = append(*log, featStep{NS: f.Name.Space + "#list", Err: err, Step: rc.S.Steps})
+			}
+			return req, err
+		}
+	}
 	f.Negotiate = func(ctx context.Context, s *xmpp.Session, data interface{}) (xmpp.SessionState, io.ReadWriter, error) {
 		st := s.State()
 		mask, rw, err := orig(ctx, s, data)
@@ -218,7 +228,7 @@ func exchange(s *xmpp.Session, name xml.Name, ack string, mask xmpp.SessionState
 	return mask, nil, nil
 }
 
-var hsKinds = []string{"plain", "tls", "s2s", "ws", "component", "volfail", "volparse", "bidi", "bidionly"}
+var hsKinds = []string{"plain", "tls", "s2s", "ws", "component", "volfail", "volparse", "bidi", "bidionly", "listfail"}
 
 // HS is one handshake under simulation.
 type HS struct {
@@ -287,6 +297,7 @@ func (h *HS) Start() {
 	case "plain", "volfail", "volparse":
 		cfs := cf(xmpp.SASL("", "pass", sasl.Plain), xmpp.BindResource())
 		sfs := sf(xmpp.SASLServer(perm, sasl.Plain), xmpp.BindResource())
+
 		if h.kind == "volfail" {
 			cfs = append(cf(volFeature("urn:verif:vol", errBoom)), cfs...)
 			sfs = append(sf(volFeature("urn:verif:vol", nil)), sfs...)
@@ -346,6 +357,39 @@ func (h *HS) Start() {
 				}
 			}
 			h.S.done, h.S.retStep = true, rc.S.Steps
+		})
+	case "listfail":
+		// a receiver whose second advertisement (after authentication) contains a feature that cannot be listed - a back
+		// end that is down, say; the failure is the feature's own, nothing is wrong with the transport. The initiator is
+		// scripted: it does not wait for the end of a features list before it selects what it has seen in it.
+		lf := volFeature("urn:verif:lf", nil)
+		lf.Necessary = xmpp.Authn
+		lf.List = func(ctx context.Context, e xmlstream.TokenWriter, start xml.StartElement) (bool, error) {
+			return false, errBoom
+		}
+		sfs := sf(xmpp.SASLServer(perm, sasl.Plain), xmpp.BindResource(), lf)
+		h.run(h.S, func() (*xmpp.Session, error) { return xmpp.ReceiveSession(h.S.ctx, h.rw(h.S), xmpp.Secure, neg(sfs)) })
+		h.C.scripted = true
+		h.C.task = rc.Spawn("client", func() {
+			out := h.S.conn.Conn.Out()
+			wait := func(site string, sub string, n int) {
+				simrt.WaitUntil(site, func() bool { return bytes.Count(out.Tap, []byte(sub)) >= n || h.C.ctx.Err() != nil || h.S.done })
+			}
+			hdr := `<?xml version='1.0'?><stream:stream xmlns='jabber:client' xmlns:stream='http://etherx.jabber.org/streams' version='1.0' to='example.net' from='me@example.net'>`
+			say := func(x string) {
+				if h.C.err == nil {
+					_, h.C.err = io.WriteString(h.C.conn, x)
+				}
+			}
+			say(hdr)
+			wait("lf:mechanisms", "</stream:features>", 1)
+			say(`<auth xmlns='urn:ietf:params:xml:ns:xmpp-sasl' mechanism='PLAIN'>AG1lAHBhc3M=</auth>`)
+			wait("lf:success", "<success", 1)
+			say(hdr)
+			wait("lf:bind", "<bind", 1)
+			say(`<iq type='set' id='b1'><bind xmlns='urn:ietf:params:xml:ns:xmpp-bind'/></iq>`)
+			wait("lf:result", "</iq>", 1)
+			h.C.done, h.C.retStep = true, rc.S.Steps
 		})
 	case "s2s":
 		// ReceiveSession cannot accept an s2s initiator that names itself (the
@@ -414,6 +458,10 @@ func (h *HS) Done() bool {
 	if (h.kind == "volfail" || h.kind == "volparse") && h.clientOnly {
 		// the receiver keeps waiting for the next selection once the initiator gave up
 		return h.C.done
+	}
+	if h.kind == "listfail" {
+		// the initiator waits for an advertisement that never comes complete
+		return h.S.done
 	}
 	return h.C.done && h.S.done
 }
